@@ -74,3 +74,23 @@ Proof.
   intros t off len. unfold ring_idx, u16_add, Frag.pool_ring_idx.
   destruct (t + off <? U16)%N; reflexivity.
 Qed.
+
+(* ---- RecvStream::read_to_end (compio-quic/src/recv_stream.rs) ---------------------------- *)
+From Compio.Model Require Import QuicWakers.
+Theorem rte_tie : forall (cs : list chunk) (m : nat),
+  rte_min cs m = fold_left (fun a c => Frag.rte_start_step a (fst c)) cs m
+  /\ rte_max cs m = fold_left (fun a c => Frag.rte_end_step a (fst c) (length (snd c))) cs m.
+Proof.
+  induction cs as [|c r IH]; intro m; [split; reflexivity|].
+  cbn [rte_min rte_max fold_left]. destruct (IH (Nat.min m (fst c))) as [H1 _].
+  destruct (IH (Nat.max m (fst c + length (snd c)))) as [_ H2]. split; assumption.
+Qed.
+
+(* every chunk is copied to offset - start, as the source has it *)
+Theorem rte_assemble_tie : forall cs,
+  read_to_end_assemble cs =
+    let s := rte_start cs in
+    let e := rte_end cs in
+    if Nat.leb e s then [] else
+    fold_left (fun buf c => write_at buf (Frag.rte_place (fst c) s) (snd c)) cs (repeat_b 0%N (e - s)).
+Proof. intro cs. reflexivity. Qed.
